@@ -12,8 +12,8 @@ struct PinDef { double px, py, ax, ay; ConnDirFlags side; const char *name; };  
 static const PinDef DEFS[6] = {{ATTACH_POS_LEFT, ATTACH_POS_CENTRE, ATTACH_POS_MIN_OFFSET, 10, ConnDirLeft, "L"}, {ATTACH_POS_RIGHT, ATTACH_POS_CENTRE, ATTACH_POS_MAX_OFFSET, 10, ConnDirRight, "R"},
                                {ATTACH_POS_CENTRE, ATTACH_POS_TOP, 10, ATTACH_POS_MIN_OFFSET, ConnDirUp, "T"}, {ATTACH_POS_CENTRE, ATTACH_POS_BOTTOM, 10, ATTACH_POS_MAX_OFFSET, ConnDirDown, "B"},
                                {ATTACH_POS_RIGHT, 0.25, ATTACH_POS_MAX_OFFSET, 5, ConnDirRight, "R1"}, {ATTACH_POS_RIGHT, 0.75, ATTACH_POS_MAX_OFFSET, 15, ConnDirRight, "R2"}};
-struct Cfg { bool ortho; double inside; bool proportional; int dirMode; int excl; int mv; int cps; bool toJunction; int heap; bool early = false; int extra = 0; bool costs = false; };   // extra: pins of ANOTHER class on the same shape (1: a ConnDirAll centre pin, 2: directional pins at the middle of all four sides)   // early: the move/resize (and a junction move) is issued BEFORE the first processTransaction   // dirMode 0 automatic(ConnDirNone) 1 explicit side 2 All; excl 0 default 1 forced exclusive 2 forced shared
-static string cfg_str(const Cfg &c) { return mcx::fmt("%s insideOffset=%g %s dirs=%s exclusive=%s then=%s checkpoints=%d far_end=%s heap=%d", c.ortho ? "orthogonal" : "polyline", c.inside, c.proportional ? "proportional" : "absolute", c.dirMode == 0 ? "automatic" : c.dirMode == 1 ? "side" : "all", c.excl == 0 ? "default" : c.excl == 1 ? "forced" : "shared", c.mv == 0 ? "nothing" : c.mv == 1 ? "translate" : "resize", c.cps, c.toJunction ? "junction" : "point", c.heap) + (c.early ? " move-before-first-transaction" : "") + (c.extra == 1 ? " +centre pin of another class" : c.extra == 2 ? " +four side pins of another class" : "") + (c.costs ? " +connection costs (50 on every other pin)" : ""); }
+struct Cfg { bool ortho; double inside; bool proportional; int dirMode; int excl; int mv; int cps; bool toJunction; int heap; bool early = false; int extra = 0; bool costs = false; int cpDirs = 0; };   // cpDirs: 1 checkpoints may only be ARRIVED AT from the left (ConnDirLeft), 2 only be LEFT towards smaller y (libavoid's VertInf::directionFrom calls that ConnDirDown), 3 both   // extra: pins of ANOTHER class on the same shape (1: a ConnDirAll centre pin, 2: directional pins at the middle of all four sides)   // early: the move/resize (and a junction move) is issued BEFORE the first processTransaction   // dirMode 0 automatic(ConnDirNone) 1 explicit side 2 All; excl 0 default 1 forced exclusive 2 forced shared
+static string cfg_str(const Cfg &c) { return mcx::fmt("%s insideOffset=%g %s dirs=%s exclusive=%s then=%s checkpoints=%d far_end=%s heap=%d", c.ortho ? "orthogonal" : "polyline", c.inside, c.proportional ? "proportional" : "absolute", c.dirMode == 0 ? "automatic" : c.dirMode == 1 ? "side" : "all", c.excl == 0 ? "default" : c.excl == 1 ? "forced" : "shared", c.mv == 0 ? "nothing" : c.mv == 1 ? "translate" : "resize", c.cps, c.toJunction ? "junction" : "point", c.heap) + (c.early ? " move-before-first-transaction" : "") + (c.extra == 1 ? " +centre pin of another class" : c.extra == 2 ? " +four side pins of another class" : "") + (c.costs ? " +connection costs (50 on every other pin)" : "") + (c.cpDirs ? mcx::fmt(" checkpoint directions#%d", c.cpDirs) : string()); }
 
 static bool onSeg(Point a, Point b, Point p) { return fabs((b.x - a.x) * (p.y - a.y) - (p.x - a.x) * (b.y - a.y)) < 1e-6 && p.x >= min(a.x, b.x) - 1e-6 && p.x <= max(a.x, b.x) + 1e-6 && p.y >= min(a.y, b.y) - 1e-6 && p.y <= max(a.y, b.y) + 1e-6; }
 
@@ -22,6 +22,7 @@ static void run(unsigned pm, int k, const vector<pair<int, int>> &targets, const
     ctx.announce(desc); ctx.count("evaluations");
     vector<string> kc; if (c.inside == 0 && c.dirMode != 2) kc.push_back("pin_on_boundary");
     if (c.cps && c.toJunction) kc.push_back("checkpoints_on_junction_connector");
+    if (c.cpDirs == 2) kc.push_back("checkpoint_with_restricted_departure_and_free_arrival");   // the leg INTO the checkpoint is routed without regard to how it may be left
     if (c.extra == 2 && (pm & 15) && c.ortho) kc.push_back("coincident_pins_of_two_classes_orthogonal");   // a pin of the connector's class shares its position with a pin of another class
     char whyBuf[100] = "", obsBuf[300] = ""; bool aborted = false; char abortWhat[600] = ""; int nTrans = 0; bool nontriv = false;
     if (c.heap) mcx::heap_begin(c.heap, mcx::REUSE_NONE, 0);
@@ -44,7 +45,7 @@ static void run(unsigned pm, int k, const vector<pair<int, int>> &targets, const
             Point tp(targets[i].first * S, targets[i].second * S); ConnRef *cn;
             if (c.toJunction) { JunctionRef *j = new JunctionRef(r, tp); js.push_back(j); cn = (i % 2 == 0) ? new ConnRef(r, ConnEnd(sh, 1), ConnEnd(j)) : new ConnRef(r, ConnEnd(j), ConnEnd(sh, 1)); }
             else { js.push_back(nullptr); cn = (i % 2 == 0) ? new ConnRef(r, ConnEnd(sh, 1), ConnEnd(tp)) : new ConnRef(r, ConnEnd(tp), ConnEnd(sh, 1)); }
-            if (c.cps && i == 0) { vector<Checkpoint> v; cpl[i].push_back(Point(4.5 * S, 4.5 * S)); if (c.cps > 1) cpl[i].push_back(Point(-0.5 * S, 4.5 * S)); if (i % 2) reverse(cpl[i].begin(), cpl[i].end()); for (auto &p : cpl[i]) v.push_back(Checkpoint(p)); cn->setRoutingCheckpoints(v); }
+            if (c.cps && (i == 0 || c.cpDirs)) { vector<Checkpoint> v; cpl[i].push_back(Point(4.5 * S, 4.5 * S)); if (c.cps > 1) cpl[i].push_back(Point(-0.5 * S, 4.5 * S)); if (i % 2) reverse(cpl[i].begin(), cpl[i].end()); for (auto &p : cpl[i]) v.push_back(c.cpDirs ? Checkpoint(p, (c.cpDirs & 1) ? (ConnDirFlags)ConnDirLeft : (ConnDirFlags)ConnDirAll, (c.cpDirs & 2) ? (ConnDirFlags)ConnDirDown : (ConnDirFlags)ConnDirAll) : Checkpoint(p)); cn->setRoutingCheckpoints(v); }
             cs.push_back(cn);
         }
         if (!c.early) { r->processTransaction(); nTrans++; }
@@ -113,6 +114,10 @@ int main(int argc, char **argv) {
         phase({(bool)ortho, 0, true, 1, 0, 0, 0, false, heap}, few, 2, 2);   // pins exactly on the boundary: known-finding class
         for (int ex = 1; ex <= 2; ex++) for (int mv = 0; mv < 2; mv++) { Cfg e{(bool)ortho, 3, true, 1, 0, mv, 0, false, heap}; e.extra = ex; phase(e, ex == 1 ? all : few, 2, ex == 1 ? 1 : 2); }
         for (int mv = 0; mv < 3; mv++) { Cfg e{(bool)ortho, 3, true, 1, 0, mv, 0, false, heap}; e.costs = true; phase(e, few, 2, 2); }
+        // (orthogonal only: in polyline mode a direction-restricted checkpoint is legitimately unreachable -- and then skipped, as documented -- when no vertex lies in the permitted quadrants)
+        // one checkpoint only: at (90,90) every pin lies to its left and every target above it, so both restrictions can be met; a second restricted
+        // checkpoint at the far left has nothing to its left to arrive from
+        if (ortho) for (int cd = 1; cd <= 3; cd++) for (int ncp = 1; ncp <= 1; ncp++) for (int tj = 0; tj < 2; tj++) { Cfg e{(bool)ortho, 3, true, 1, 0, 0, ncp, (bool)tj, heap}; e.cpDirs = cd; phase(e, few, 2, tj ? 3 : 2); }
         for (int mv = 1; mv < 3; mv++) { Cfg e{(bool)ortho, 3, true, 1, 0, mv, 0, false, heap}; e.early = true; phase(e, few, 2, 2); Cfg ej{(bool)ortho, 3, true, 1, 0, mv, 0, true, heap}; ej.early = true; phase(ej, few, 2, 3); }
     }
     if (TH) for (int ortho = 0; ortho < 2; ortho++) for (int heap = 1; heap <= 2; heap++) for (int prop = 0; prop < 2; prop++) for (int dm = 0; dm < 3; dm++) for (int ex = 0; ex < 3; ex++) for (int mv = 0; mv < 3; mv++) for (int tj = 0; tj < 2; tj++) {
